@@ -415,8 +415,9 @@ func (g structReprTupleReprBuilderGenerator) emitListAssemblerChildListAssembler
 			}
 		}
 	`, w, g.AdjCfg, g)
-	// Surprisingly, the Finish method doesn't have anything to do regarding any trailing optionals:
+	// The Finish method doesn't have anything to do regarding any trailing optionals:
 	//  if they weren't assigned yet, their Maybe state is still the zero value: absent.  And that's correct.
+	// A required field that no value was assembled for is an error, though: 'la.f' counts the values assembled.
 	// DRY: okay, this finish component is actually identical, both textually and in terms of linking, to lists.  This we should actually extract.
 	doTemplate(`
 		func (la *_{{ .Type | TypeSymbol }}__ReprAssembler) Finish() error {
@@ -430,6 +431,13 @@ func (g structReprTupleReprBuilderGenerator) emitListAssemblerChildListAssembler
 			case laState_finished:
 				panic("invalid state: Finish cannot be called on an assembler that's already finished")
 			}
+			{{- range $i, $field := .Type.Fields }}
+			{{- if not $field.IsOptional }}
+			if la.f <= {{ $i }} {
+				return schema.ErrMissingRequiredField{Missing: []string{"{{ $field.Name }}"}}
+			}
+			{{- end}}
+			{{- end}}
 			la.state = laState_finished
 			*la.m = schema.Maybe_Value
 			return nil
